@@ -19,10 +19,16 @@ PLAIN = {'trig': 'out', 'filter': 'pass', 'cond': 'none'}
 
 
 def models(tier, seed):
-    ms = [dict(name='MC_Guard all graphs of 3 nodes', spec='MC_Guard', cfg='MC_Guard.cfg'),
+    ms = [dict(name='MC_Guard all graphs of 3 nodes, kinds fwd/chg/tgl', spec='MC_Guard', cfg='MC_Guard_classic3.cfg'),
+          dict(name='MC_Guard all graphs of 2 nodes, all kinds (incl. the zero-timer FSM)', spec='MC_Guard',
+               cfg='MC_Guard_all2.cfg'),
           dict(name='MC_Guard labelled edges, 2 nodes', spec='MC_Guard', cfg='MC_Guard_labels2.cfg'),
           dict(name='MC_Guard flag-not-reset deviation (sharpness)', spec='MC_Guard',
-               cfg='MC_Guard_noreset.cfg', expect_violation='Released')]
+               cfg='MC_Guard_noreset.cfg', expect_violation='Released'),
+          dict(name='MC_Guard zero-length timed event checked with the guard off (sharpness)', spec='MC_Guard',
+               cfg='MC_Guard_zerowin.cfg', expect_violation='Depth1')]
+    if tier != 'quick':
+        ms.append(dict(name='MC_Guard all graphs of 3 nodes, all kinds', spec='MC_Guard', cfg='MC_Guard.cfg'))
     return ms
 
 
@@ -31,6 +37,8 @@ def _impl(rnd, kind, edges):
         return 'input'
     if kind == 'tgl':
         return rnd.choice(['counter', 'fsm'])
+    if kind == 'ztg':
+        return 'fsmz'
     if len(edges) == 1 and edges[0]['filter'] == 'pass' and edges[0]['cond'] == 'none' and rnd.random() < .5:
         return 'repeat'
     # a stateless forwarder: a plain probe block, or an OutputFunc forwarding through on_success
@@ -45,7 +53,7 @@ def _graph(rnd, kinds, edges):
         if impl[b] == 'repeat' and impl[es[0]['to'] - 1] == 'repeat':
             impl[b] = 'probe'
     for b, es in enumerate(edges):
-        if impl[b] in ('fsm', 'probe', 'repeat', 'of'):
+        if impl[b] in ('fsm', 'fsmz', 'probe', 'repeat', 'of'):
             for e in es:
                 e['trig'] = 'out'           # on_enter / probe events: sent on every handled event
     return {'kind': kinds, 'edges': edges, 'impl': impl}
@@ -67,10 +75,10 @@ def stimuli(tier, seed, ctx):
     k = 0
     for n in (1, 2, 3):
         pairs = [(a, b) for a in range(1, n + 1) for b in range(1, n + 1)]
-        for kinds in itertools.product(['fwd', 'chg', 'tgl'], repeat=n):
+        for kinds in itertools.product(['fwd', 'chg', 'tgl', 'ztg'], repeat=n):
             for mask in range(2 ** len(pairs)):
                 k += 1
-                if tier == 'quick' and n == 3 and k % 12 != seed % 12:
+                if tier == 'quick' and n == 3 and k % 24 != seed % 24:
                     continue
                 edges = [[] for _ in range(n)]
                 for i, (a, b) in enumerate(pairs):
@@ -82,7 +90,7 @@ def stimuli(tier, seed, ctx):
     # (ii) random labelled graphs up to 7 nodes
     for _ in range(500 if tier == 'quick' else 12000):
         n = rnd.randint(2, 7)
-        kinds = [rnd.choice(['fwd', 'chg', 'chg', 'tgl']) for _ in range(n)]
+        kinds = [rnd.choice(['fwd', 'chg', 'chg', 'tgl', 'ztg']) for _ in range(n)]
         edges = [[] for _ in range(n)]
         p = rnd.choice([0.15, 0.25, 0.4])
         for a in range(n):
@@ -124,7 +132,7 @@ def stimuli(tier, seed, ctx):
     return out
 
 
-ETYPE = {'input': 'put', 'counter': 'inc', 'fsm': 'tgl', 'probe': 'fwdev', 'repeat': 'put', 'of': 'put'}
+ETYPE = {'input': 'put', 'counter': 'inc', 'fsm': 'tgl', 'fsmz': 'tgl', 'probe': 'fwdev', 'repeat': 'put', 'of': 'put'}
 
 
 def execute(stim):
@@ -147,7 +155,9 @@ def execute(stim):
 
     def wrapped(self, etype, /, **data):
         name = self.name
-        if not (name.startswith('n') and name[1:].isdigit()) or etype == 'zzz':
+        if not (name.startswith('n') and name[1:].isdigit()) or etype in ('zzz', 'tick'):
+            # ('tick': the zero-length timed event an FSM sends to itself - how it is delivered is
+            # the FSM's business, only events arriving from other blocks are in the log)
             return orig_event(self, etype, **data)
         b = int(name[1:])
         v = code(data.get('value', 0))
@@ -180,6 +190,16 @@ def execute(stim):
         def calc_output(self):
             return self._state == 's1'
 
+    class ZTgl(edzed.FSM):
+        """both states are timed with a zero duration; the timed event has no transition: it is
+        checked as soon as a state is entered and the on_notrans events are sent"""
+        STATES = ['s0', 's1']
+        TIMERS = {'s0': (0, 'tick'), 's1': (0, 'tick')}
+        EVENTS = [('tgl', ['s0'], 's1'), ('tgl', ['s1'], 's0'), ('tick', None, None)]
+
+        def calc_output(self):
+            return self._state == 's1'
+
     def etype_of(b):
         """event type accepted by block b (a Repeat accepts and forwards its destination's type)"""
         impl = g['impl'][b - 1]
@@ -187,7 +207,7 @@ def execute(stim):
             return etype_of(g['edges'][b - 1][0]['to'])
         return ETYPE[impl]
 
-    def mk_events(b, trig=None):
+    def mk_events(b, trig=None, notrans=False):
         evs = []
         for e in g['edges'][b - 1]:
             if trig is not None and e['trig'] != trig:
@@ -198,6 +218,9 @@ def execute(stim):
             elif e['cond'] == 'fnone':
                 et = edzed.EventCond(et, None)
             flt = (lambda d: False) if e['filter'] == 'reject' else None
+            if notrans and flt is None:
+                # on_notrans events carry the state, not the value
+                flt = lambda d: {**d, 'value': d['state'] == 's1'}
             evs.append(edzed.Event(f'n{e["to"]}', et, efilter=flt))
         return evs
 
@@ -219,6 +242,8 @@ def execute(stim):
             elif impl == 'fsm':
                 evs = mk_events(b)
                 blk = Tgl(f'n{b}', initdef=f's{iv}', on_enter_s0=evs, on_enter_s1=evs, **pk)
+            elif impl == 'fsmz':
+                blk = ZTgl(f'n{b}', initdef=f's{iv}', on_notrans=mk_events(b, notrans=True), **pk)
             elif impl == 'repeat':
                 e = g['edges'][b - 1][0]
                 blk = edzed.Repeat(f'n{b}', dest=f'n{e["to"]}', etype=etype_of(e['to']),
@@ -237,7 +262,7 @@ def execute(stim):
         for b in range(1, n + 1):
             impl = g['impl'][b - 1]
             blk = blocks[b]
-            if impl in ('input', 'counter', 'fsm'):
+            if impl in ('input', 'counter', 'fsm', 'fsmz'):
                 res.append(code(blk.output))
             else:
                 res.append(stim['init'][b - 1])     # stateless in the model
